@@ -176,3 +176,52 @@ Proof.
 Qed.
 Theorem randomly_unbounded_never_asserts choices src dest : dest <> [] -> connect_randomly_uneven choices src dest None <> RAssert.
 Proof. intros H. unfold connect_randomly_uneven. apply rand_loop_inf_no_assert. exact H. Qed.
+
+(* evenly: per-destination totals differ by at most one.  Every round's list p is a duplicate-free list containing
+   every destination; a full round (at least dsize sources left) uses each destination exactly once, the last,
+   partial round at most once. *)
+Lemma count_zip_le1 d : forall src p, NoDup p -> count d (zip src p) <= 1.
+Proof.
+  induction src as [|x src IH]; intros [|y p] Hn; simpl; try lia.
+  inversion Hn as [|? ? Hy Hp]; subst. destruct (Nat.eqb_spec y d) as [->|Hne].
+  - assert (count d (zip src p) = 0); [|lia].
+    clear -Hy. revert p Hy. induction src as [|x' src IH']; intros [|z p] Hy; simpl; auto.
+    destruct (Nat.eqb_spec z d) as [->|Hz]; [exfalso; apply Hy; left; reflexivity|]. simpl. apply IH'. intros H; apply Hy; right; exact H.
+  - simpl. apply IH. exact Hp.
+Qed.
+Lemma count_zip_full d : forall p src, length p <= length src -> In d p -> 1 <= count d (zip src p).
+Proof.
+  induction p as [|y p IH]; intros [|x src] Hl Hin; simpl in *; try tauto; try lia.
+  destruct Hin as [->|Hin]; [rewrite Nat.eqb_refl; lia|].
+  specialize (IH src ltac:(lia) Hin). lia.
+Qed.
+Theorem evenly_balanced fuel : forall perms src dsize r (D : list nat),
+  (forall p, In p perms -> length p = dsize /\ NoDup p /\ forall d, In d D -> In d p) ->
+  connect_evenly fuel perms src dsize = Some r ->
+  exists k, forall d, In d D -> k <= count d r <= S k.
+Proof.
+  induction fuel as [|f IH]; intros perms src dsize r D Hp H.
+  - destruct src; simpl in H; [injection H as <-; exists 0; intros; simpl; lia | discriminate].
+  - destruct src as [|s0 src0] eqn:Es; [injection H as <-; exists 0; intros; simpl; lia|]. rewrite <- Es in *.
+    assert (Hne : src <> []) by (rewrite Es; discriminate).
+    simpl in H. rewrite Es in H. rewrite <- Es in H.
+    destruct perms as [|p perms']; [discriminate|].
+    destruct (connect_evenly f perms' (skipn dsize src) dsize) as [r'|] eqn:Er; [|discriminate]. injection H as <-.
+    destruct (Hp p (or_introl eq_refl)) as [Hlen [Hnd Hall]].
+    destruct (le_lt_dec dsize (length src)) as [Hfull|Hpart].
+    + destruct (IH perms' (skipn dsize src) dsize r' D) as [k Hk]; [intros q Hq; apply Hp; right; exact Hq | exact Er |].
+      exists (S k). intros d Hd. rewrite count_app. specialize (Hk d Hd).
+      pose proof (count_zip_le1 d src p Hnd). pose proof (count_zip_full d p src ltac:(lia) (Hall d Hd)). lia.
+    + rewrite skipn_all2 in Er by lia. destruct f; simpl in Er; injection Er as <-;
+      exists 0; intros d Hd; rewrite count_app; simpl; pose proof (count_zip_le1 d src p Hnd); lia.
+Qed.
+Theorem evenly_totals : forall fuel perms src dsize r (D : list nat),
+  (forall p, In p perms -> length p = dsize /\ NoDup p /\ forall d, In d D -> In d p) ->
+  connect_evenly fuel perms src dsize = Some r ->
+  forall d d', In d D -> In d' D -> count d r <= S (count d' r).
+Proof.
+  intros fuel perms src dsize r D Hp H d d' Hd Hd'.
+  destruct (evenly_balanced fuel perms src dsize r D Hp H) as [k Hk].
+  pose proof (Hk d Hd) as [_ H1]. pose proof (Hk d' Hd') as [H2 _].
+  exact (Nat.le_trans _ _ _ H1 (le_n_S _ _ H2)).
+Qed.
